@@ -254,7 +254,19 @@ func runReader(sc *rscenario) (evs []interface{}) {
 	case "reader", "nextreader":
 		var ms wsflate.MessageState
 		var cbs []rcb
-		rd := &wsutil.Reader{Source: src, State: sc.state(), CheckUTF8: sc.Utf8, MaxFrameSize: int64(sc.Max), SkipHeaderCheck: sc.Skip}
+		// the constructors rotate with the literal form (they must give the same reader)
+		var rd *wsutil.Reader
+		switch {
+		case sc.state() == ws.StateServerSide && len(sc.Key)%2 == 0:
+			rd = wsutil.NewServerSideReader(src)
+		case sc.state() == ws.StateClientSide && len(sc.Key)%2 == 0:
+			rd = wsutil.NewClientSideReader(src)
+		case len(sc.Key)%3 == 0:
+			rd = wsutil.NewReader(src, sc.state())
+		default:
+			rd = &wsutil.Reader{Source: src, State: sc.state()}
+		}
+		rd.CheckUTF8, rd.MaxFrameSize, rd.SkipHeaderCheck = sc.Utf8, int64(sc.Max), sc.Skip
 		if sc.Ext {
 			rd.Extensions = []wsutil.RecvExtension{&ms}
 		}
